@@ -58,6 +58,17 @@ def run(res):
     for r in r_bad[:2]:
         res.violations.append({"property": "C01", "what": "model reader and real reader disagree", "case": r["case"],
                                "impl": r["rdec_impl"][:2000], "model": r["rdec_model"][:2000], "tags": ["reader-diff"]})
+    # extraction cross-check: the same decode evaluated inside Coq (vm_compute in the kernel's VM)
+    small = [r for r in out if r["comp"] is not None and len(r["comp"]["hex"]) <= 300][:24]
+    shard = [(r["case"]["dt"], r["comp"]["hex"]) for r in small]
+    shard += [(dt, hx[: 2 * (len(hx) // 4)]) for dt, hx in shard[:6]]            # truncated
+    shard += [(dt, hx[:20] + ("ff" if hx[20:22] != "ff" else "00") + hx[22:]) for dt, hx in shard[:6]]   # corrupted
+    ka = lib.coq_shard_decode("C01", shard)
+    oa = lib.run_model(["rdec %s %s" % c for c in shard])
+    sbad = [(c, k, o) for c, k, o in zip(shard, ka, oa) if k != o]
+    res.oblige("K:extracted OCaml model == evaluation of the same Gallina term inside Coq (vm_compute) on %d sampled files" % len(shard), "K", not sbad, str(sbad[:1])[:400])
+    for c, k, o in sbad[:1]:
+        res.violations.append({"property": "C01", "what": "extracted model disagrees with in-Coq evaluation", "query": "rdec %s %s" % c, "coq": k, "ocaml": o, "tags": ["extraction"]})
     # release build: wrapping arithmetic instead of overflow panics
     rq = [pl.compress_query(c) for c in rel_cases]
     ra = lib.run_impl(rq, release=True)
